@@ -189,3 +189,18 @@ Example C09_ex_removed :
   map (fun tm => (t_reg tm, t_pend tm)) (timers (fst (run ex_prog (init 4096 [(4096, false, 0%nat)] []) 12)))
   = [(false, false); (true, false)].
 Proof. vm_compute. reflexivity. Qed.
+
+(* a persistent 1 s timer, reset by an external event at +504 units (the wait of 1024 is cut short), unregistered by
+   another at 7000: the firing moves from 5120 to 5624 = 4600 + 1024, the next one is 1024 later, nothing fires after
+   the request, and only then the loop waits without bound.  Instantiates C09_reset / C09_unregistered_silent. *)
+Definition ex_prog2 : prog :=
+  mkProg [[OCreate 1024 true]; [OReset 0]; [OUnreg 0]] [] [] tmo_num tmo_den.
+
+Example C09_ex_reset_unregister :
+  hist ex_prog2 4096 [(4096, false, 0%nat); (4600, false, 1%nat); (7000, false, 2%nat)] [] 16 =
+  [ LCreate 4096 1024 true None; LIter 4096 [] None; LIter 4096 [] (Some (Fin 1024));
+    LReset 0 4600 None; LIter 4600 [] (Some (Fin 1024));
+    LIter 5624 [0%nat] None; LDisp 0 5624; LIter 5624 [] (Some (Fin 1024));
+    LIter 6648 [0%nat] None; LDisp 0 6648; LIter 6648 [] (Some (Fin 1024));
+    LUnreq 0 7000; LIter 7000 [] None; LIter 7000 [] None; LIter 7000 [] None; LIter 7000 [] (Some Inf) ].
+Proof. vm_compute. reflexivity. Qed.
